@@ -20,8 +20,10 @@ REQUIRED_THEOREMS = [
     "Acn.C12.failed_op_changes_nothing", "Acn.C12.register_refused_after_constraint",
     "Acn.C12.names_nodup_add", "Acn.C12.names_nodup_remove", "Acn.C12.subset_query",
     "Acn.C12.update_failure_is_removal", "Acn.C12.row_entry", "Acn.C12.constructors_keys_nodup",
+    "Acn.C12.full_net_projects", "Acn.C12.reachable_feas_wf", "Acn.C12.reachable_three_agree",
+    "Acn.C12.reregistration_breaks_wf", "Acn.C12.full_query", "Acn.C12.reregistered_query_fails",
 ]
-BUDGET = {"quick": 700, "thorough": 12000, "search": 4000}
+BUDGET = {"quick": 700, "thorough": 7000, "search": 4000}
 TRUSTED = [
     "pandas: Series.add(fill_value=0) = key union with a missing side counted 0; concat / fillna(0) / "
     "reindex(columns=station_ids) / to_frame().T = re-indexing on the station list with fill 0; "
@@ -35,8 +37,12 @@ ASSUMPTIONS = [
     "dyadic so the arithmetic is exact)",
     "coefficients, scalars and limits are finite (no NaN/inf operands)",
     "Currents are built by the class's constructors and operators (distinct keys)",
-    "constraint_current is exercised with phase angle 0 on every EVSE and linear=False, on networks with at "
-    "least one station and a rectangular schedule (phasors and the linear mode belong to C06)",
+    "constraint_current is exercised with linear=False, the network's own phase angles (cos/sin as numpy computes "
+    "them are inputs of the model), on networks with at least one station and a rectangular schedule; the linear "
+    "mode and the feasibility decision belong to C06",
+    "re-registering a registered station id appends to _phase_angles/_voltages but not to the station list "
+    "(follows the code): every correctly shaped constraint_current query then raises; Feas.Net.WF (the C06 "
+    "hypothesis) is proved for all histories WITHOUT re-registration and refuted with it",
     "update_constraint is remove-then-add in the code: when the add raises KeyError (unknown station) the "
     "constraint stays removed; the model, the spec and the oracle follow the code (reported as an observation)",
 ]
@@ -44,10 +50,18 @@ RULE = ("per case a history of 3-16 operations on a fresh ChargingNetwork: regis
         "re-registration, after-constraint), add_constraint / update_constraint with a random Current expression tree "
         "(depth <= 4 over +, -, k*., .*k; leaves = list / dict / str / empty Currents over random overlapping station "
         "subsets listed in random order, sometimes an unknown station), explicit / default / duplicate / _v2 names, "
-        "remove_constraint (known, unknown, duplicated names), and constraint_current queries with name subsets "
+        "remove_constraint (known, unknown, duplicated names), register_evse with random phase angles / voltages incl. "
+        "re-registration of a known id, + / - whose operands name the SAME station set in DIFFERENT orders with "
+        "non-uniform coefficients, a REJECTED add_constraint in the middle of a history followed by more "
+        "adds/removes/updates, and constraint_current queries (also after re-registration, also one-row schedules "
+        "that numpy broadcasts) with name subsets "
         "(shuffled, repeated, unknown) and time indices (shuffled, negative, out of range); non-trivial = a composite "
         "expression was stored AND (a row was removed/updated from a matrix with >= 2 rows OR a subset query "
-        "selected a proper non-empty subset); distinct by hash of the case")
+        "selected a proper non-empty subset); distinct by hash of the case.  thorough tier adds an EXHAUSTIVE small "
+        "scope: every history of <= 3 operations over a 16-letter alphabet (3 Currents incl. a composite and one "
+        "over an unknown station x names {None,'x','_const_0'}, 2 removes, 4 updates, register) on 2 and on 3 "
+        "stations, and every history of exactly 4 operations over an 8-letter alphabet on 2 stations (12832 "
+        "histories, each closed by a subset query)")
 
 POOL = ["A", "B", "C", "D", "E", "PS-001", "s10", "s9", "_x"]
 UNKNOWN = ["Z", "Q-404"]
@@ -140,6 +154,35 @@ def _gen_name(rng, names):
     return rng.choice(NAMEPOOL)
 
 
+PHASES = [0, 0, 0, 0, -120, 120, 30, -90, 150, 45.5, 180]
+VOLTS = [208, 208, 240, 277, 120]
+
+
+def _reg(rng, s):
+    o = {"op": "register", "id": s}
+    if rng.random() < 0.6:
+        o["phase"] = rng.choice(PHASES)
+        o["voltage"] = rng.choice(VOLTS)
+    return o
+
+
+def _gen_same_set_pair(rng, ids):
+    """seeded-bug class: both operands of +/- name the SAME station set, listed in DIFFERENT orders, with
+    non-uniform coefficients (a positional instead of a label-wise combination would go unnoticed otherwise)"""
+    k = rng.randint(2, min(4, len(ids)))
+    sub = rng.sample(ids, k)
+    a = [[s_, rng.choice([1, 2, 3, -1, 0.5, 4, -2.5, 7])] for s_ in sub]
+    perm = sub[:]
+    while perm == sub:
+        rng.shuffle(perm)
+    vals = rng.sample([10, 20, -30, 0.25, 5, -6, 8, 1.5], k)
+    b = [[s_, v] for s_, v in zip(perm, vals)]
+    E = {"t": rng.choice(["add", "add", "sub"]), "l": {"t": "dict", "items": a}, "r": {"t": "dict", "items": b}}
+    if rng.random() < 0.3:
+        E = {"t": "lmul", "k": rng.choice(SCALARS), "e": E}
+    return E
+
+
 def _gen_query(rng, ids, names):
     n = len(ids)
     T = rng.randint(1, 4)
@@ -159,8 +202,11 @@ def _gen_query(rng, ids, names):
         if rng.random() < 0.08:
             ts.append(rng.choice([T, -T - 1, T + 3]))
         q["times"] = ts
-    if rng.random() < 0.04 and n >= 1 and names:
-        q["sched"] = sched + [[1] * T]  # one row too many: ValueError
+    r = rng.random()
+    if r < 0.04 and n >= 1:
+        q["sched"] = sched + [[1] * T]  # one row too many
+    elif r < 0.08 and n >= 2:
+        q["sched"] = sched[:1]          # a single row: numpy broadcasts it over all stations
     return q
 
 
@@ -169,19 +215,34 @@ def _gen_case(rng, tier):
     nst = rng.choice([0, 1, 2, 3, 3, 4, 4, 5, 6])
     ids = rng.sample(POOL, nst)
     for s in ids:
-        ops.append({"op": "register", "id": s})
-    dup = False
-    if ids and rng.random() < 0.06:
-        ops.append({"op": "register", "id": rng.choice(ids)})
-        dup = True
+        ops.append(_reg(rng, s))
+    if ids and rng.random() < 0.08:
+        ops.append(_reg(rng, rng.choice(ids)))   # re-registration of a known id
     names = []      # generator-side simulation of the naming convention (only to pick mostly-valid ops)
     frozen = False
     n = rng.randint(2, 12)
-    for _ in range(n):
+    # seeded-bug class: a REJECTED add_constraint (unknown station) in the middle of the history, with
+    # successful adds before it and adds / removes / updates after it
+    reject_at = rng.randint(1, max(1, n - 2)) if (ids and rng.random() < 0.2) else None
+    for step in range(n):
         r = rng.random()
         unknown_ok = rng.random() < 0.08
+        if reject_at is not None and step == 0:
+            r = 0.0          # make sure something is stored before the rejected add
+            unknown_ok = False
+        if reject_at is not None and step == reject_at:
+            E = _gen_expr(rng, ids, rng.randint(0, 2), False)
+            bad = {"t": "dict", "items": [[rng.choice(UNKNOWN), rng.choice(COEFFS)]]}
+            E = rng.choice([{"t": "add", "l": E, "r": bad}, {"t": "sub", "l": bad, "r": E}, bad])
+            ops.append({"op": "add", "expr": E, "limit": rng.choice([55, 77.5, 999]), "name": _gen_name(rng, names)})
+            continue
+        if reject_at is not None and step > reject_at and r >= 0.78:
+            r = rng.random() * 0.78   # adds / removes / updates after the rejection
         if r < 0.45:
-            E = _gen_expr(rng, ids, rng.randint(0, 4), unknown_ok)
+            if len(ids) >= 2 and rng.random() < 0.15:
+                E = _gen_same_set_pair(rng, ids)
+            else:
+                E = _gen_expr(rng, ids, rng.randint(0, 4), unknown_ok)
             nm = _gen_name(rng, names)
             lim = rng.choice([10, 20.5, 100, 0, 1000, 64]) if rng.random() < 0.8 else round(rng.uniform(0, 400), 2)
             ops.append({"op": "add", "expr": E, "limit": lim, "name": nm})
@@ -205,15 +266,14 @@ def _gen_case(rng, tier):
                     names.append(_resolve(names, nn if nn is not None else nm))
         elif r < 0.84:
             s = rng.choice(POOL)
-            ops.append({"op": "register", "id": s})
-            if not frozen:
-                if s in ids:
-                    dup = True
-                else:
-                    ids = ids + [s]
+            ops.append(_reg(rng, s))
+            if not frozen and s not in ids:
+                ids = ids + [s]
         else:
-            if ids and not dup:
+            if ids:
                 ops.append({"op": "query", **{k: v for k, v in _gen_query(rng, ids, names).items() if k != "op"}})
+    if reject_at is not None and ids:
+        ops.append(_gen_query(rng, ids, names))
     return {"ops": ops}
 
 
@@ -242,8 +302,66 @@ def corpus():
     ]
 
 
+def _small_scope():
+    """EVERY history of <= 3 operations over a 16-letter alphabet on 2 and on 3 stations, and every history of
+    exactly 4 operations over an 8-letter alphabet on 2 stations; names from {None, 'x', '_const_0'}; each
+    history ends with one subset query.  Deterministic (no rng)."""
+    import itertools
+    cA = {"t": "list", "ids": ["A"]}
+    cBA = {"t": "dict", "items": [["B", 2], ["A", -1]]}
+    comp = {"t": "sub", "l": {"t": "lmul", "k": 2, "e": {"t": "dict", "items": [["B", 2], ["A", 1]]}},
+            "r": {"t": "dict", "items": [["A", 3], ["B", 0.5]]}}      # same set, other order
+    bad = {"t": "list", "ids": ["A", "Z"]}
+    names3 = [None, "x", "_const_0"]
+    lim = iter(range(1, 10 ** 9))
+
+    def add(E, nm):
+        return {"op": "add", "expr": E, "limit": None, "name": nm}
+
+    big = [add(E, nm) for E in (cA, comp, bad) for nm in names3]
+    big += [{"op": "remove", "name": "x"}, {"op": "remove", "name": "_const_0"}]
+    big += [{"op": "update", "name": nm, "expr": cBA, "limit": None, "new_name": nn}
+            for nm in ("x", "_const_0") for nn in (None, "x")]
+    big += [{"op": "register", "id": "C"}]
+    small = [add(E, nm) for E in (cA, comp) for nm in (None, "x")]
+    small += [{"op": "remove", "name": "x"}, {"op": "remove", "name": "_const_0"},
+              {"op": "update", "name": "x", "expr": cBA, "limit": None, "new_name": None},
+              {"op": "update", "name": "_const_0", "expr": bad, "limit": None, "new_name": "x"}]
+    assert len(big) == 16 and len(small) == 8
+
+    def case(stations, seq):
+        ops = [{"op": "register", "id": s_} for s_ in stations]
+        for k, o in enumerate(seq):
+            o = dict(o)
+            if "limit" in o:
+                o["limit"] = 10 * (k + 1) + 0.5   # distinct limits: a mis-aligned limit is visible
+            ops.append(o)
+        cur, fr = list(stations), False
+        for o in seq:
+            if o["op"] == "register" and not fr and o["id"] not in cur:
+                cur.append(o["id"])
+            if o["op"] == "add" and o["expr"] is not bad:
+                fr = True
+        n = len(cur)
+        ops.append({"op": "query", "sched": [[j + 1, 2 * j + 3] for j in range(n)],
+                    "names": ["x", "_const_0", "x_v2"], "times": [-1, 0]})
+        return {"ops": ops, "small_scope": True}
+
+    out = []
+    for stations in (["B", "A"], ["C", "A", "B"]):
+        for L in (1, 2, 3):
+            for seq in itertools.product(big, repeat=L):
+                out.append(case(stations, seq))
+    for seq in itertools.product(small, repeat=4):
+        out.append(case(["B", "A"], seq))
+    return out
+
+
 def generate(rng, n, tier):
-    return [_gen_case(rng, tier) for _ in range(n)]
+    out = [_gen_case(rng, tier) for _ in range(n)]
+    if tier == "thorough":
+        out.extend(_small_scope())
+    return out
 
 
 # ------------------------------------------------------------------ implementation
@@ -343,6 +461,7 @@ def _snapshot(net):
     df = net.constraints_as_df()
     m = net.constraint_matrix
     return {
+        "nangles": int(len(net._phase_angles)), "nvoltages": int(len(net._voltages)),
         "stations": list(net.station_ids),
         "matrix": None if m is None else [[_num(x) for x in row] for row in np.asarray(m).tolist()],
         "df_columns": [str(c) for c in df.columns],
@@ -361,18 +480,13 @@ def run_impl(case):
     for o in case["ops"]:
         op = o["op"]
         st = {"err": None}
-        if op == "query" and len(net._phase_angles) != len(net.station_ids):
-            # an id was registered twice: the phase-angle vector is longer than the station list and
-            # constraint_current cannot be evaluated (outside C12: the query is not judged)
-            steps.append({"err": None, "abstain": True})
-            continue
         if op == "query":
             try:
                 res = net.constraint_current(np.array(o["sched"], dtype=float), constraints=o["names"],
                                              time_indices=o["times"])
                 res = np.asarray(res)
                 st["result"] = [[_num(x) for x in row] for row in res.real.tolist()]
-                st["imag"] = float(np.max(np.abs(res.imag))) if res.size else 0.0
+                st["imag"] = [[_num(x) for x in row] for row in res.imag.tolist()]
                 st["shape"] = list(res.shape)
             except Exception as e:  # noqa
                 st["err"] = _err_name(e)
@@ -393,7 +507,7 @@ def run_impl(case):
             st["coeffs"] = _series_vals(cur)
         try:
             if op == "register":
-                net.register_evse(EVSE(o["id"]), 208, 0)
+                net.register_evse(EVSE(o["id"]), o.get("voltage", 208), o.get("phase", 0))
             elif op == "add":
                 net.add_constraint(cur, o["limit"], name=o["name"])
             elif op == "remove":
@@ -447,9 +561,18 @@ def model_request(case):
             sched = o["sched"]
             ops.append({"op": "query", "sched": [[f2b(x) for x in row] for row in sched],
                         "T": len(sched[0]) if sched else 0, "names": o["names"], "times": o["times"]})
+        elif op == "register":
+            c, s_ = _cs(o.get("phase", 0))
+            ops.append({"op": "register", "id": o["id"], "c": f2b(c), "s": f2b(s_), "v": f2b(o.get("voltage", 208))})
         else:
             ops.append(o)
     return {"ops": ops}
+
+
+def _cs(phase):
+    """cos / sin of a phase angle exactly as constraint_current computes them (inputs of the model)"""
+    z = np.exp(1j * np.deg2rad(np.array([float(phase)])))[0]
+    return float(z.real), float(z.imag)
 
 
 def _close_rows(a, b):
@@ -467,30 +590,27 @@ def _close_rows(a, b):
 def compare(case, obs, model):
     out = []
     for i, (o, a, m) in enumerate(zip(case["ops"], obs["steps"], model["steps"])):
-        if a.get("abstain"):
-            continue
         if a.get("skipped"):
             out.append(f"step {i}: implementation's expression value is not a Current ({a['taint'][0]['node']} is "
                        f"{a['taint'][0]['type']}); the model evaluates it")
             continue
-        if o["op"] == "query" and {a["err"], m["err"]} == {"TypeError", "ValueError"} and m["err"] == "ValueError":
-            continue
-        if o["op"] == "query" and len(o["sched"]) == 1 and m["err"] == "ValueError":
-            continue  # one-row schedule against several stations: numpy broadcasts it (malformed input, see oracle)  # mis-shaped schedule on a constraint-free network: numpy's order of failure, see oracle
         if a["err"] != m["err"]:
             out.append(f"step {i} {o['op']}: err impl={a['err']} model={m['err']}")
             continue
         if o["op"] == "query":
             if a["err"] is None:
                 mr = [[b2f(x) for x in row] for row in m["result"]]
-                if not _close_rows(a["result"], mr):
-                    out.append(f"step {i} query: impl={a['result']} model={mr}")
+                mi = [[b2f(x) for x in row] for row in m["imag"]]
+                if not _close_rows(a["result"], mr) or not _close_rows(a["imag"], mi):
+                    out.append(f"step {i} query: impl={a['result']} + i{a['imag']} model={mr} + i{mi}")
             continue
         if "coeffs" in a:
             mc = [[k, b2f(v)] for k, v in m["coeffs"]]
             if [k for k, _ in mc] != [k for k, _ in a["coeffs"]] or not all(
                     close(float(x), y) for (_, x), (_, y) in zip(a["coeffs"], mc)):
                 out.append(f"step {i}: expression value impl={a['coeffs']} model={mc}")
+        if a["nangles"] != m["nangles"] or a["nvoltages"] != m["nvoltages"]:
+            out.append(f"step {i}: {a['nangles']} phase angles / {a['nvoltages']} voltages, model {m['nangles']} / {m['nvoltages']}")
         if a["stations"] != m["stations"]:
             out.append(f"step {i}: stations impl={a['stations']} model={m['stations']}")
         if a["index"] != m["index"]:
@@ -544,12 +664,12 @@ def oracle(case, obs):
         fails.append({"kind": kind, "detail": detail})
 
     stations, frozen, cons = [], False, []   # the specification: a plain list of (coeffs, limit, name)
+    angles = []                               # one (cos, sin) per ACCEPTED register_evse call
     prev = {"stations": [], "matrix": None, "magnitudes": [], "index": []}
     for i, (o, st) in enumerate(zip(case["ops"], obs["steps"])):
         op = o["op"]
         if op == "query":
-            if not st.get("abstain"):
-                _oracle_query(i, o, st, stations, frozen, cons, fail)
+            _oracle_query(i, o, st, stations, frozen, cons, angles, fail)
             continue
         if st.get("skipped"):
             first = st["taint"][0]
@@ -569,8 +689,10 @@ def oracle(case, obs):
         if op == "register":
             if frozen:
                 exp_err, exp_unchanged = "EVSERegistrationError", True
-            elif o["id"] not in stations:
-                stations = stations + [o["id"]]
+            else:
+                angles = angles + [_cs(o.get("phase", 0))]
+                if o["id"] not in stations:
+                    stations = stations + [o["id"]]
         elif op in ("add", "update"):
             want = _expected(o["expr"])
             got = {k: v for k, v in st["coeffs"]}
@@ -613,6 +735,9 @@ def oracle(case, obs):
         if exp_unchanged and cur != prev:
             fail("failed_op_changed_state", f"op {i} {op}: before={prev} after={cur}")
         # ---- alignment of the three containers with the specification
+        if st["nangles"] != len(angles) or st["nvoltages"] != len(angles):
+            fail("phase_vector_wrong", f"op {i}: {st['nangles']} phase angles, {st['nvoltages']} voltages after "
+                                       f"{len(angles)} accepted registrations")
         if st["stations"] != stations or st["df_columns"] != stations:
             fail("stations_wrong", f"op {i}: station_ids={st['stations']} df.columns={st['df_columns']} expected={stations}")
         rows = st["matrix"] if st["matrix"] is not None else []
@@ -651,42 +776,47 @@ def _norm_time(t, T):
     return None
 
 
-def _oracle_query(i, o, st, stations, frozen, cons, fail):
+def _oracle_query(i, o, st, stations, frozen, cons, angles, fail):
+    """constraint_current(schedule, names, times) with the network's own phase angles, linear=False.
+    numpy's rules, written independently of the model: column indexing first (IndexError); the schedule
+    (R rows) is broadcast against the A angle coefficients (needs R == A, R == 1 or A == 1, else ValueError);
+    None[...] on a constraint-free network (TypeError); the matrix product needs as many phasor rows as
+    stations (ValueError).  After an id was registered twice A > len(stations) and every query raises."""
     sched = o["sched"]
-    if len(sched) == 1 and len(stations) != 1:
-        return  # a one-row schedule is silently broadcast over all stations by numpy: malformed input, not judged
+    R, A, n = len(sched), len(angles), len(stations)
     T = len(sched[0]) if sched else 0
     times = list(range(T)) if o["times"] is None else [_norm_time(t, T) for t in o["times"]]
+    W = R if R == A else (A if R == 1 else (R if A == 1 else None))
     if any(t is None for t in times):
         exp = "IndexError"
-    elif len(sched) != len(stations):
-        # numpy raises while broadcasting the phase angles (ValueError); with a single station the
-        # broadcast succeeds and a constraint-free network fails first on its None matrix
-        exp = "ValueError" if (frozen or st["err"] != "TypeError") else "TypeError"
+    elif W is None:
+        exp = "ValueError"
     elif not frozen:
         exp = "TypeError"
+    elif n != W:
+        exp = "ValueError"
     else:
         exp = None
     if st["err"] != exp:
-        fail("query_error_class_wrong", f"op {i}: raised {st['err']}, expected {exp}")
+        fail("query_error_class_wrong", f"op {i}: raised {st['err']}, expected {exp} (schedule rows {R}, "
+                                        f"{A} phase angles, {n} stations)")
         return
     if exp is not None:
         return
     sel = [c for c in cons if o["names"] is None or c[2] in o["names"]]
-    want = [[sum((c[0].get(s, Fraction(0)) * Fraction(sched[j][t]) for j, s in enumerate(stations)), Fraction(0))
-             for t in times] for c in sel]
-    got = st["result"]
     if st["shape"] != [len(sel), len(times)]:
         fail("query_wrong", f"op {i}: shape {st['shape']}, expected {[len(sel), len(times)]} "
                             f"(names={o['names']}, times={o['times']})")
         return
-    if st["imag"] != 0.0:
-        fail("query_wrong", f"op {i}: imaginary part {st['imag']} with all phase angles 0")
-    for r, (gr, wr) in enumerate(zip(got, want)):
-        if not all((not _isnan(g)) and close(float(g), float(w)) for g, w in zip(gr, wr)):
-            fail("query_wrong", f"op {i}: row {r} ({sel[r][2]}) = {gr}, expected {[float(w) for w in wr]} "
-                                f"(names={o['names']}, times={o['times']})")
-            return
+    for part, comp in (("result", 0), ("imag", 1)):
+        want = [[sum((c[0].get(s, Fraction(0)) * Fraction(sched[0 if R == 1 else j][t])
+                      * Fraction(angles[0 if A == 1 else j][comp]) for j, s in enumerate(stations)), Fraction(0))
+                 for t in times] for c in sel]
+        for r, (gr, wr) in enumerate(zip(st[part], want)):
+            if not all((not _isnan(g)) and close(float(g), float(w)) for g, w in zip(gr, wr)):
+                fail("query_wrong", f"op {i}: {'Re' if comp == 0 else 'Im'} row {r} ({sel[r][2]}) = {gr}, expected "
+                                    f"{[float(w) for w in wr]} (names={o['names']}, times={o['times']})")
+                return
 
 
 # ------------------------------------------------------------------ evidence helpers
@@ -701,7 +831,7 @@ def nontrivial(case, obs):
             composite = True
         if o["op"] in ("remove", "update") and st["err"] is None and len(st["index"]) >= 1:
             touched = True
-        if o["op"] == "query" and st["err"] is None and not st.get("abstain") and o["names"] is not None and st["shape"][0] >= 1:
+        if o["op"] == "query" and st["err"] is None and o["names"] is not None and st["shape"][0] >= 1:
             touched = True
     return composite and touched
 
@@ -748,14 +878,62 @@ def features(case, obs):
                     out.append("add:first_row_path")
             elif op == "update" and st["err"] == "KeyError" and len(st["index"]) < rows_before:
                 out.append("update:not_atomic_row_lost")
-        if op == "query" and st.get("abstain"):
-            out.append("query:abstain_reregistered")
-        elif op == "query" and st["err"] is None:
+        if op == "query" and st["err"] is None:
             out.append("query:names=" + ("None" if o["names"] is None else "subset"))
             out.append("query:times=" + ("None" if o["times"] is None else "subset"))
             if o["times"] and any(t < 0 for t in o["times"]):
                 out.append("query:negative_time_index")
     out.append("stations:%d" % nreg)
+    out.extend(_class_features(case, obs))
+    return out
+
+
+def _same_set_other_order(E):
+    t = E["t"]
+    if t in ("add", "sub"):
+        l, r = E["l"], E["r"]
+        if l["t"] == "dict" and r["t"] == "dict":
+            kl, kr = [k for k, _ in l["items"]], [k for k, _ in r["items"]]
+            if len(kl) >= 2 and set(kl) == set(kr) and kl != kr and len(set(v for _, v in l["items"])) > 1:
+                return True
+        return _same_set_other_order(l) or _same_set_other_order(r)
+    if t in ("lmul", "rmul"):
+        return _same_set_other_order(E["e"])
+    return False
+
+
+def _class_features(case, obs):
+    out = []
+    if case.get("small_scope"):
+        out.append("class:small_scope_exhaustive")
+    ok_before, rejected = 0, False
+    for o, st in zip(case["ops"], obs["steps"]):
+        op = o["op"]
+        if st.get("skipped"):
+            continue
+        if op == "register" and o.get("phase", 0) != 0:
+            out.append("phase:nonzero")
+        if op in ("add", "update") and st["err"] is None and _same_set_other_order(o["expr"]):
+            out.append("class:same_station_set_other_order_stored")
+        if op == "add" and st["err"] == "KeyError" and ok_before:
+            rejected = True
+        elif op in ("add", "remove", "update") and st["err"] is None:
+            if rejected:
+                out.append("class:op_after_rejected_add_mid_history")
+            ok_before += op == "add"
+        if op == "query":
+            if st["err"] is None and len(o["sched"]) == 1 and len(st["result"]) and len(o["sched"]) != st.get("n", 1):
+                pass
+    # queries judged where the first version abstained
+    nang = nst = 0
+    for o, st in zip(case["ops"], obs["steps"]):
+        if o["op"] != "query":
+            nang, nst = st.get("nangles", nang), len(st.get("stations", []))
+        else:
+            if nang > nst:
+                out.append("query:after_reregistration")
+            if len(o["sched"]) == 1 and nst >= 2:
+                out.append("query:single_row_broadcast")
     return out
 
 
